@@ -707,6 +707,12 @@ func (c *detCase) variantScns() []*PScn {
 		v.Runs = 3
 		scns = append(scns, &v)
 	}
+	if len(c.S.Gens) > 1 {
+		// the same set of generators handed over in the opposite order (last variant)
+		v := cloneScn(c.S)
+		v.GenRev = true
+		scns = append(scns, &v)
+	}
 	return scns
 }
 
@@ -726,6 +732,14 @@ func (c *detCase) Line() string {
 	return pc.Line()
 }
 func (c *detCase) CanonModel(m string) string { c.ensure(); return c.S.canonModel(c.out, m) }
+
+func genNames(gs []PGen) string {
+	var ns []string
+	for _, g := range gs {
+		ns = append(ns, g.Name)
+	}
+	return strings.Join(ns, ",")
+}
 
 func genFilesOf(after map[string]string) map[string]string {
 	m := map[string]string{}
@@ -754,7 +768,20 @@ func sameMap(a, b map[string]string) string {
 func (c *detCase) Oracle(out string) string {
 	c.ensure()
 	base := c.variants[0]
+	if last := c.variants[len(c.variants)-1]; len(c.S.Gens) > 1 && len(c.variants) > 3 && base.Result == "ok" && last.Result == "ok" {
+		// generators in the opposite order: every generator has a file of its own, so the files are the same (the calls
+		// come in another order, and a failing run may fail in another generator first: neither is compared)
+		if k := sameMap(base.Texts, last.Texts); k != "" {
+			return fmt.Sprintf("%s differs between two runs on identical module contents that were handed the same generators in opposite orders:\n--- %s\n%s\n--- reversed\n%s", k, genNames(c.S.Gens), base.Texts[k], last.Texts[k])
+		}
+		if last.Sum != base.Sum {
+			return "gengo.sum differs between two runs that were handed the same generators in opposite orders"
+		}
+	}
 	for i, v := range c.variants[1:] {
+		if len(c.S.Gens) > 1 && len(c.variants) > 3 && i == len(c.variants)-2 {
+			break // the generator-order variant, judged above
+		}
 		if v.Result != base.Result && !(strings.HasPrefix(v.Result, "syntax:") && strings.HasPrefix(base.Result, "syntax:")) {
 			return fmt.Sprintf("run %d (entrypoints permuted, fresh process) returned %s, run 0 returned %s", i+1, v.Result, base.Result)
 		}
